@@ -510,6 +510,10 @@ def _tti(sn=1, ebn=0xFF, cs=0, tci=(0, 0, 1, 0), tco=(0, 0, 2, 0), vp=20, jc=2, 
 
 # the degenerate inputs the property names, and one input per robustness defect found so far: a seconds-long regression tier
 CATALOG = [
+  # two regions holding text in the last, unbounded, interval (each becomes a WebVTT cue of its own when line_position is on)
+  ("imsc", (TT % ("", '<head><layout><region xml:id="r1" tts:origin="10% 10%" tts:extent="80% 20%"/><region xml:id="r2" tts:origin="10% 70%" '
+                      'tts:extent="80% 20%"/></layout></head><body><div><p region="r1" begin="1s">top</p><p region="r2" begin="1s">bottom</p>'
+                      '<p region="r2" begin="2s">more</p></div></body>')).encode()),
   ("imsc", (TT % ("", '<head><layout><region xml:id="r1" tts:textEmphasis="auto"/></layout></head><body region="r1"><div><p>x</p></div></body>')).encode()),
   ("imsc", (TT % ("", '<head><styling><initial tts:textEmphasis="before"/></styling></head><body><div><p>x</p></div></body>')).encode()),
   ("srt", b""), ("srt", b"\n\n"), ("srt", b"1\n"), ("srt", b"1\n00:00:01,000 --> 00:00:02,000\n"),
